@@ -125,6 +125,26 @@ fn check_mono(base: &[&str], x: &str, pos: usize, reqs: &[Req], l: &mut Local) {
                         format!("{} list: engine blocked={} but reference {:?} (matching {:?}) for ({}, {}, {})", which, b, s.verdict.matched, s.matching, rq.url, rq.source, rq.ty),
                     ));
                 }
+                // the same precedence through the restricted forms of the check (an earlier engine
+                // already blocks: importants and exceptions still decide; exceptions forced)
+                if which == "extended" && s.verdict.hits > 0 && rq.req.is_supported {
+                    let exp = ns::spec_subset(&s);
+                    for (k, (prev, force)) in [(true, false), (false, true)].into_iter().enumerate() {
+                        l.compared += 1;
+                        l.transitions += 1;
+                        let got = vh::util::catch(|| vh::net::Verdict::of(&e1.check_network_request_subset(&rq.req, prev, force)));
+                        let ok = match &got {
+                            Ok(g) => exp[k].0.accepts(&g.matched) && exp[k].1.accepts(&g.important) && exp[k].2.accepts(&g.exception),
+                            Err(_) => false,
+                        };
+                        if !ok {
+                            l.mismatch(mk(
+                                format!("c04.spec.restricted-check({},{})", prev, force),
+                                format!("extended list: check_network_request_subset(previously_matched={}, force_exceptions={}) gives {:?}, reference (matched, important, exception) {:?} (matching {:?}) for ({}, {}, {})", prev, force, got, exp[k], s.matching, rq.url, rq.source, rq.ty),
+                            ));
+                        }
+                    }
+                }
             }
         }
     }
